@@ -460,6 +460,16 @@ def run_anova(case, ctx, teneva):
     I = I.astype(idt)
     I_arg = I.tolist() if case['aslist'] else I.copy()
     y_arg = y.tolist() if case['aslist'] else y.copy()
+    rounded32 = False
+    if not case['aslist'] and rng.random() < 0.2:
+        # the values as measured data often arrive: float32 (the model is of
+        # those exact values and is formed in double precision)
+        y32 = np.asarray(y, dtype=np.float32)
+        if np.all(np.isfinite(y32)):
+            rounded32 = not np.array_equal(y32.astype(float), y)
+            y = y32.astype(float)
+            y_arg = y32.copy()
+            ctx.event('values-given-as-float32')
 
     M = Model(I, y, order)
     n = M.n
@@ -598,8 +608,9 @@ def run_anova(case, ctx, teneva):
     else:
         nbound = None
 
+    # (values rounded to float32 are no longer an exactly additive table)
     additive = case['vfam'] in ('additive', 'additive-int') and \
-        case['ifam'] in ('full', 'fullx2')
+        case['ifam'] in ('full', 'fullx2') and not rounded32
     if additive:
         F = np.zeros(n, dtype=LD)
         F[tuple(np.stack(M.pos, axis=1).T)] = y.astype(LD)
@@ -835,6 +846,12 @@ def run_func(case, ctx, teneva):
     y = np.asarray(y, dtype=float)
     X_arg = X.copy()
     y_arg = y.tolist() if case['aslist'] else y.copy()
+    if not case['aslist'] and rng.random() < 0.2:
+        y32 = np.asarray(y, dtype=np.float32)
+        if np.all(np.isfinite(y32)):
+            y = y32.astype(float)
+            y_arg = y32.copy()
+            ctx.event('values-given-as-float32')
 
     # ---- reference quantities
     Xl = X.astype(LD)
